@@ -2,6 +2,7 @@ package c36
 
 import (
 	"fmt"
+	"strings"
 	"testing"
 
 	"google.golang.org/protobuf/encoding/protojson"
@@ -26,9 +27,105 @@ type schemaCase struct {
 }
 
 type shape struct {
-	Syntax                                                              string
-	Descriptors                                                         int64
+	Syntax                                                                         string
 	MaxRanges, Aliases, DupKeys, BigMsgs, OneofDupJSON, GroupLike, Maps, Required int
+}
+
+// camel is the documented default JSON name: underscores dropped, the following lower-case letter capitalised.
+func camel(s string) string {
+	var b []byte
+	up := false
+	for i := 0; i < len(s); i++ {
+		c := s[i]
+		if c == '_' {
+			up = true
+			continue
+		}
+		if up && 'a' <= c && c <= 'z' {
+			c -= 'a' - 'A'
+		}
+		up = false
+		b = append(b, c)
+	}
+	return string(b)
+}
+
+// shapeOf classifies a schema from the descriptor proto alone (no descriptor is built).
+func shapeOf(fdp *descriptorpb.FileDescriptorProto) shape {
+	sh := shape{Syntax: fdp.GetSyntax()}
+	enum := func(ed *descriptorpb.EnumDescriptorProto) {
+		if n := len(ed.ReservedRange); n > sh.MaxRanges {
+			sh.MaxRanges = n
+		}
+		seen := map[int32]bool{}
+		for _, v := range ed.Value {
+			if seen[v.GetNumber()] {
+				sh.Aliases++
+			}
+			seen[v.GetNumber()] = true
+		}
+	}
+	var msg func(md *descriptorpb.DescriptorProto)
+	msg = func(md *descriptorpb.DescriptorProto) {
+		if n := len(md.ReservedRange) + len(md.ExtensionRange); n > sh.MaxRanges {
+			sh.MaxRanges = n
+		}
+		if len(md.Field) > 100 {
+			sh.BigMsgs++
+		}
+		entries := map[string]bool{}
+		for _, n := range md.NestedType {
+			if n.GetOptions().GetMapEntry() {
+				entries[n.GetName()] = true
+			}
+		}
+		inMsg := map[string]bool{}
+		inOneof := map[int32]map[string]bool{}
+		for _, f := range md.Field {
+			js := camel(f.GetName())
+			if f.JsonName != nil {
+				js = f.GetJsonName()
+			}
+			if inMsg[js] {
+				sh.DupKeys++
+			}
+			inMsg[js] = true
+			if f.OneofIndex != nil {
+				if inOneof[f.GetOneofIndex()] == nil {
+					inOneof[f.GetOneofIndex()] = map[string]bool{}
+				}
+				if inOneof[f.GetOneofIndex()][js] {
+					sh.OneofDupJSON++
+				}
+				inOneof[f.GetOneofIndex()][js] = true
+			}
+			tn := f.GetTypeName()
+			last := tn[strings.LastIndexByte(tn, '.')+1:]
+			if entries[last] && f.GetLabel() == descriptorpb.FieldDescriptorProto_LABEL_REPEATED {
+				sh.Maps++
+			}
+			delimited := f.GetType() == descriptorpb.FieldDescriptorProto_TYPE_GROUP || f.GetOptions().GetFeatures().GetMessageEncoding() == descriptorpb.FeatureSet_DELIMITED
+			if delimited && strings.ToLower(last) == f.GetName() {
+				sh.GroupLike++
+			}
+			if f.GetLabel() == descriptorpb.FieldDescriptorProto_LABEL_REQUIRED || f.GetOptions().GetFeatures().GetFieldPresence() == descriptorpb.FeatureSet_LEGACY_REQUIRED {
+				sh.Required++
+			}
+		}
+		for _, e := range md.EnumType {
+			enum(e)
+		}
+		for _, n := range md.NestedType {
+			msg(n)
+		}
+	}
+	for _, e := range fdp.EnumType {
+		enum(e)
+	}
+	for _, m := range fdp.MessageType {
+		msg(m)
+	}
+	return sh
 }
 
 func build(fdp *descriptorpb.FileDescriptorProto, via string) (protoreflect.FileDescriptor, error) {
@@ -69,15 +166,7 @@ func drawSchemaCase(t *rapid.T) schemaCase {
 		t.Fatalf("harness: %v", err)
 	}
 	c.FDP = string(js)
-	// classification: walk the protodesc build once without touching the known-finding counters
-	fd, err := protodesc.NewFile(fdp, nil)
-	if err != nil {
-		t.Fatalf("harness: generator produced a schema protodesc rejects: %v\n%s", err, js)
-	}
-	w := &walker{file: fd, statsOnly: true}
-	w.checkFile() // failures are reported by Check, not here
-	c.Shape = shape{Syntax: fdp.GetSyntax(), Descriptors: w.descriptors, MaxRanges: w.maxRanges, Aliases: w.aliases, DupKeys: w.dupJSON, BigMsgs: w.bigMsgs,
-		OneofDupJSON: w.oneofDupKey, GroupLike: w.groupLike, Maps: w.maps, Required: w.required}
+	c.Shape = shapeOf(fdp)
 	return c
 }
 
